@@ -36,7 +36,7 @@ func (c *Conn) handleIdle(dec *imapwire.Decoder) error {
 	}()
 
 	c.setReadTimeout(idleReadTimeout)
-	line, isPrefix, err := c.br.ReadLine()
+	line, isPrefix, err := c.readLine()
 	close(stop)
 	if err == io.EOF {
 		return nil
